@@ -310,4 +310,55 @@ theorem C04_shadow_hides_subpaths (d : Obj) (below below' : Stack) (k : Sc) (p :
     Stack.get (.global d :: below) (k :: p) = find (.obj d) (k :: p) := by
   simp [Stack.tryGet, Stack.get, pathKey, hb]
 
+/-- keys of an object -/
+theorem objContains_insert_other (d : Obj) (k k' : Str) (v : V) (h : objContains d k' = true) :
+    objContains (objInsert d k v) k' = true := by
+  induction d with
+  | nil => simp [objContains] at h
+  | cons kv r ih =>
+    obtain ⟨k0, w⟩ := kv
+    by_cases hk : k0 = k
+    · subst hk
+      simp only [objInsert, beq_self_eq_true, if_true]
+      simp only [objContains, List.any_cons] at h ⊢
+      exact h
+    · have hne : (k0 == k) = false := by simpa using hk
+      have hstep : objInsert ((k0, w) :: r) k v = (k0, w) :: objInsert r k v := by
+        simp [objInsert, hne]
+      rw [hstep]
+      have h' : (k0 == k') = true ∨ objContains r k' = true := by
+        simpa [objContains, List.any_cons] using h
+      rcases h' with h' | h'
+      · simp [objContains, List.any_cons, h']
+      · have := ih h'
+        simp only [objContains, List.any_cons, Bool.or_eq_true]
+        exact Or.inr (by simpa [objContains] using this)
+
+/-- **Every argument of an include / render is a binding, whatever its value** — a nil value included:
+each named argument that evaluates ends up as a key of the argument frame, so inside the partial it
+shadows what lower layers hold for that name (with `C04_precedence_inner`). -/
+theorem C04_every_argument_binds (st : Stack) (args : List (Str × Expr)) (acc pass : Obj)
+    (h : evalVars st args acc = .ok pass) :
+    (∀ k, objContains acc k = true → objContains pass k = true) ∧
+    (∀ kv ∈ args, objContains pass kv.1 = true) := by
+  induction args generalizing acc with
+  | nil =>
+    simp only [evalVars, Res.ok.injEq] at h
+    subst h
+    exact ⟨fun _ hk => hk, fun kv hkv => by simp at hkv⟩
+  | cons a r ih =>
+    obtain ⟨k, e⟩ := a
+    simp only [evalVars] at h
+    cases hv : e.tryEval st with
+    | none => simp [hv] at h
+    | some v =>
+      simp only [hv] at h
+      obtain ⟨ih1, ih2⟩ := ih (objInsert acc k v) h
+      refine ⟨fun k' hk' => ih1 k' (objContains_insert_other acc k k' v hk'), ?_⟩
+      intro kv hkv
+      simp only [List.mem_cons] at hkv
+      rcases hkv with rfl | hkv
+      · exact ih1 k (C18.objInsert_contains acc k v)
+      · exact ih2 kv hkv
+
 end Liquid.C04
